@@ -39,6 +39,14 @@ type Check struct {
 	Notes   []string
 	undec   []string
 	started time.Time
+	extras  map[string]interface{}
+}
+
+func (c *Check) extra(k string, v interface{}) {
+	if c.extras == nil {
+		c.extras = map[string]interface{}{}
+	}
+	c.extras[k] = v
 }
 
 func NewCheck(p *Prog, prop, tier string) *Check {
@@ -296,6 +304,9 @@ func (c *Check) Finish(verifDir string, meta PropMeta, seed int, extra map[strin
 		cov["rpc_functions_analysed"] = len(c.P.Fns)
 		cov["program_functions"] = c.P.AllFuncs
 		cov["repo"] = c.P.Dir
+	}
+	for k, v := range c.extras {
+		cov[k] = v
 	}
 	for k, v := range extra {
 		cov[k] = v
